@@ -204,7 +204,7 @@ func strAtFunc(_ *ctx.EvalCtx, receiver object.Object, args ...object.Object) (o
 		index = len(chars) + index
 	}
 
-	if index >= len(chars) {
+	if index < 0 || index >= len(chars) {
 		return &object.Nil{}, nil
 	}
 
